@@ -1,8 +1,11 @@
-//! Generic coverage-guided target: the input bytes are the entropy of the strategy of one part of
-//! one property (`VH_FUZZ=<ID>:<part>`), the oracle is the property's own check.  A failure that is
-//! not a listed known finding is written as a JSON replay and turned into a crash.
+//! Generic coverage-guided target.  An input is a *case* of one part of one property
+//! (`VH_FUZZ=<ID>:<part>`) in the JSON form the replay files use; the oracle is the part's own check;
+//! mutation is structure-aware (`vh::engine::mutate_case`: list surgery on steps / operations /
+//! schedules, grafts from freshly generated donor cases, number and flag tweaks), so every input
+//! libFuzzer tries is a well-formed case and coverage feedback steers *which* histories are grown.
+//! A failure that is not a listed known finding is written as a replay and turned into a crash.
 #![no_main]
-use libfuzzer_sys::fuzz_target;
+use libfuzzer_sys::{fuzz_mutator, fuzz_target};
 use std::sync::OnceLock;
 
 struct Ctx {
@@ -31,4 +34,29 @@ fuzz_target!(|data: &[u8]| {
         eprintln!("FUZZ-FAILURE {}", msg);
         std::process::abort();
     }
+});
+
+fuzz_mutator!(|data: &mut [u8], size: usize, max_size: usize, seed: u32| {
+    let c = ctx();
+    let Some(part) = c.prop.parts.iter().find(|p| p.name() == c.part) else { return size };
+    let s = vh::engine::splitmix(seed as u64 ^ 0xC0FF_EE00_0000_0000);
+    let current: Option<serde_json::Value> = serde_json::from_slice(&data[..size]).ok();
+    let next = match current {
+        // not a case (empty / foreign seed file): start from a generated one
+        None => part.generate(s),
+        Some(cur) => {
+            if s % 16 == 0 {
+                part.generate(vh::engine::splitmix(s))
+            } else {
+                part.generate(vh::engine::splitmix(s ^ 1)).map(|donor| vh::engine::mutate_case(&cur, &donor, s))
+            }
+        }
+    };
+    let Some(next) = next else { return size };
+    let Ok(bytes) = serde_json::to_vec(&next) else { return size };
+    if bytes.len() > max_size || bytes.is_empty() {
+        return size;
+    }
+    data[..bytes.len()].copy_from_slice(&bytes);
+    bytes.len()
 });
